@@ -26,7 +26,7 @@ SCALE = 1024          # coefficient tokens handed to the Lean model: coef * SCAL
 SEG_LETTERS = set('CLOVFGJSbrkKxd')
 INV_OPC = {v: k for k, v in nlgen.OPC.items()}
 VARIADIC = ('sum', 'min', 'max')
-N_THEOREMS = 38
+N_THEOREMS = 42
 # vptr excluded: mp's CRTP base constructors downcast `this` before the derived object exists (flat/converter.h:51),
 # which UBSan's vptr check reports on every run; unrelated to this property
 SAN_FLAGS = ('-O1', '-g', '-fsanitize=address,undefined', '-fno-sanitize=vptr', '-fno-sanitize-recover=all')
@@ -98,6 +98,9 @@ def gen_nl(rng, nv, depth=0):
     return e
 
 
+stats_gen = {}
+
+
 def gen_model(rng, maxobj):
     m = nlgen.Model()
     nv = rng.rint(2, 5)
@@ -115,6 +118,18 @@ def gen_model(rng, maxobj):
                 if rng.chance(1, 2):
                     lin[j] = rcoef(rng)
         nl = gen_nl(rng, nv) if rng.chance(3, 5) else None
+        if rng.chance(1, 4):
+            # least squares / bilinear plus linear cost: the expansion of the expression contributes linear terms on
+            # variables that also have a G coefficient ((x-a)^2 + c*x,  c*x + (x+a)*(y+b))
+            j, k2 = rng.below(nv), rng.below(nv)
+            a, b = F(rng.rint(-4, 4) or 2), F(rng.rint(-4, 4) or 1)
+            sq = ('*', ('-', ('v', j), ('n', a)), ('-', ('v', j), ('n', a)))
+            bil = ('*', ('+', ('v', j), ('n', a)), ('+', ('v', k2), ('n', b)))
+            nl = rng.choice([sq, bil, ('+', sq, bil), ('-', bil, ('*', ('n', rcoef(rng)), ('v', j)))])
+            lin[j] = rcoef(rng)
+            if rng.chance(1, 2):
+                lin[k2] = rcoef(rng)
+            stats_gen['expansion_overlaps_G'] = stats_gen.get('expansion_overlaps_G', 0) + 1
         m.obj(sense, lin, nl, name='ob%d_%s' % (i, rng.choice(['a', 'b', 'cost', 'z'])))
     for i in range(rng.rint(0, 3)):
         lin = {j: rcoef(rng) for j in range(nv) if rng.chance(2, 3)} or {0: F(1)}
@@ -772,6 +787,25 @@ def judge(ck, c, r, mline, stats, rng):
             ismax, tok, lin = fv.file_obj(f)
             if (e['sense'] == 'max') != ismax:
                 ck.add_violation('select:sense', 'delivered objective %d has sense %s, objective %d of the file is %s' % (p, e['sense'], f + 1, 'max' if ismax else 'min'), rep)
+            # what the solver receives is a sparse vector applied per variable (obj[var] = coef): no variable, and no
+            # unordered variable pair of the quadratic part, may occur twice - otherwise the last entry wins in the solver
+            lv = list(e['lin']['v'])
+            dupv = sorted({v for v in lv if lv.count(v) > 1})
+            qp = [tuple(sorted(t)) for t in zip(e['quad']['v1'], e['quad']['v2'])] if 'quad' in e else []
+            dupq = sorted({t for t in qp if qp.count(t) > 1})
+            stats['content']['zero coefficients delivered'] = stats['content'].get('zero coefficients delivered', 0) + \
+                sum(1 for t in e['lin']['c'] if recsolver.num(t) == 0)
+            if dupv or dupq:
+                held = {}
+                for v, cf in zip(lv, e['lin']['c']):
+                    held[v] = recsolver.num(cf)          # attribute assignment: last one wins
+                summed = {}
+                for v, cf in zip(lv, e['lin']['c']):
+                    summed[v] = summed.get(v, F(0)) + recsolver.num(cf)
+                ck.add_violation('select:delivered-terms-not-a-map',
+                                 'delivered objective %d (objective %d of the file) lists variable(s) %s%s more than once: %s call with vars %s coefs %s; a solver API assigning obj[var]=coef holds %s for them instead of %s' %
+                                 (p, f + 1, dupv, (' and pair(s) %s' % dupq) if dupq else '', 'SetQuadraticObjective' if 'quad' in e else 'SetLinearObjective', lv,
+                                  [str(recsolver.num(t)) for t in e['lin']['c']], {v: str(held[v]) for v in dupv}, {v: str(summed[v]) for v in dupv}), rep)
             bad = None
             for x, xf in zip(pts, fulls):
                 got = d.obj_value(e, xf)
@@ -974,6 +1008,8 @@ def corpus_cases():
     mk(2, two, [('o', 0)], 'corpus: objno=0')
     mk(2, two[:6] + ['G2 1', '0 1'], [('o', 1)], 'corpus: G segment with an index beyond the objectives', 'badidx')
     mk(2, ['O0 0', 'n0', 'O2 1', 'n2.5', 'G0 1', '0 1'], [], 'corpus: O segment with an index beyond the objectives', 'badidx')
+    mk(1, ['O0 0', 'o5', 'o1', 'v0', 'n2', 'n2', 'G0 2', '0 3', '1 1'], [], 'corpus: min 3*x0 + x1 + (x0-2)^2  (G coefficient and expansion term on x0)')
+    mk(1, ['O0 1', 'o2', 'o0', 'v0', 'n1', 'o0', 'v1', 'n2', 'G0 1', '0 3'], [], 'corpus: max 3*x0 + (x0+1)*(x1+2)')
     mk(0, [], [], 'corpus: no objective')
     mk(0, [], [('o', 1)], 'corpus: objno=1 of 0')
     mk(1, ['G0 1', '0 1'], [], 'corpus: objective with G segment only (regression for fixed finding C12-echo-noO)', 'dropO')
@@ -994,6 +1030,7 @@ OBLIGATION_ORACLE = {
     'C12_gen_caseO_guard': r'select:|run:abnormal', 'C12_gen_segment_slots': r'select:|run:abnormal', 'C12_gen_SetObjNames': r'name:',
     'C12_gen_skel_caseO': r'select:|run:abnormal', 'C12_gen_skel_caseG': r'select:|run:abnormal', 'C12_gen_skel_delivery': r'select:|echo:',
     'C12_gen_skel_SetObjNames': r'name:',
+    'C12_gen_skel_Convert_objective': r'select:',
 }
 
 
@@ -1067,6 +1104,25 @@ def gen_crosscheck(ck, drv, trdir, cov=False):
         a, h, l = lst[0]
         ck.add_violation('gen:%s-differs' % fn, 'generated Lean definition %s%s = "%s" but the compiled function gives "%s" (%d grid points differ): translator/CSem no longer describe the code' % (fn, a, l, h, len(lst)),
                          {'function': fn, 'inputs': a, 'compiled': h, 'generated': l, 'more': [str(t) for t in lst[1:5]], 'correspondence': 'drv_c12 F-lines vs harness/h_objfilter.cc'}, found_input=False)
+    # the hand model of LinTerms::sort_terms (not translatable: std::map) against the compiled function on random term lists
+    trng = nlgen.Rng(ck.seed * 7919 + 5)
+    tl, th = [], []
+    for _ in range(400):
+        n = trng.below(9)
+        nv = trng.rint(1, 5)
+        terms = [(trng.below(nv), trng.choice([0, 0, 1, -1, 2, -2, 3, 5, -5, 7])) for _ in range(n)]
+        tl.append('T %d %s' % (n, ' '.join('%d %d' % t for t in terms)))
+        th.append('sort_terms ' + ' '.join('%d %d' % t for t in terms))
+    pt_h = subprocess.run([hexe], input='\n'.join(th) + '\n', capture_output=True, text=True).stdout.split('\n')
+    pt_l = subprocess.run([drv], input='\n'.join(tl) + '\n', capture_output=True, text=True).stdout.split('\n')
+    nbad = 0
+    for a, h, l in zip(th, pt_h, pt_l):
+        if h != l:
+            nbad += 1
+            ck.add_violation('corr:sort_terms', 'model sortTerms gives "%s", LinTerms::sort_terms gives "%s" for %s' % (l, h, a),
+                             {'input': a, 'compiled': h, 'model': l, 'correspondence': 'drv_c12 T-lines vs harness/h_objfilter.cc sort_terms'}, found_input=False)
+    ck.cov['sort_terms_lists_compared'] = len(th)
+    ck.log('model of LinTerms::sort_terms compared with the compiled function on %d random term lists, %d differ' % (len(th), nbad))
     ck.cov['generated_defs'] = len(sig)
     ck.cov['generated_defs_grid_points'] = len(meta)
     ck.log('%d generated definitions cross-checked with the compiled functions on %d grid points, %d differ' % (len(sig), len(meta), sum(len(v) for v in bad.values())))
@@ -1235,7 +1291,8 @@ def run(ck):
     for text, row, col, opts, note, mutation in corpus_cases():
         strs = ['%s=%d' % ('objno' if k == 'o' else 'multiobj', v) for k, v in opts]
         for binary in (False, True):
-            cases.append(Case(cid, text, binary, row, col, opts, None, strs, 1, note, mutation)); cid += 1
+            for q in (1, 0):
+                cases.append(Case(cid, text, binary, row, col, opts, None, strs, q, note, mutation)); cid += 1
     extra_runs = []     # (kind, case index, aux case)
     for fno in range(nfiles):
         m = gen_model(rng, maxobj)
@@ -1403,6 +1460,7 @@ def run(ck):
     ck.cov['exhaustive'] = False
     ck.cov['generator_histogram'] = {k: stats[k] for k in ('outcome', 'objkind', 'auxcon', 'nobj_hist', 'mutation', 'format', 'k_class', 'multi', 'channel', 'extra', 'expr_ops')}
     ck.cov['generator_histogram']['content_comparison'] = stats['content']
+    ck.cov['generator_histogram']['objectives_with_expansion_term_on_G_variable'] = stats_gen.get('expansion_overlaps_G', 0)
     ck.cov['generator_histogram']['altsol_files_checked'] = stats.get('altsol_files', 0)
     ck.cov['generator_histogram']['objsuffix_cases_checked'] = stats.get('objsuffix_checked', 0)
     covf = os.path.join(VERIF, 'design_notes', 'coverage', 'C12_last.json')
